@@ -521,4 +521,43 @@ example : (Plug.prun (Plug.pinit 1000) exPlugOps).map (fun r => (Plug.addedCmds 
 example : ((Plug.prun (Plug.pinit 1000) (exPlugOps.take 4)).map fun r => (r.1.loaded, Plug.tkeys r.1.table)) =
     some (true, [.id 0, .id 1, .name ['r', 'a']]) := by decide
 
+/-! ## `repeat`: when the next run is due -/
+
+open Plug in
+/-- **`_getNextRunIn`** (what `_restoreEvents` uses for a repeating event after a reload or restart):
+the restored event is due strictly in the future, on the grid `first_run + k · period`. -/
+theorem nextRunIn_on_grid (first now period : Nat) (hp : 0 < period) (hf : first ≤ now) :
+    0 < nextRunIn first now period ∧
+    (((now : Int) + (nextRunIn first now period : Nat)) - first) % (period : Int) = 0 := by
+  have hpi : (0 : Int) < period := by omega
+  have hm0 := Int.emod_nonneg ((now : Int) - first) (by omega : (period : Int) ≠ 0)
+  have hm1 := Int.emod_lt_of_pos ((now : Int) - first) hpi
+  have hd := Int.mul_ediv_add_emod ((now : Int) - first) period
+  generalize hq : ((now : Int) - first) / period = q at hd
+  generalize hm : ((now : Int) - first) % period = m at hd hm0 hm1
+  unfold nextRunIn
+  simp only [hm]
+  by_cases h5 : (period : Int) - m < 5
+  · simp only [h5, if_true]
+    refine ⟨by omega, ?_⟩
+    have : ((now : Int) + (((period : Int) - m + period).toNat : Nat)) - first
+        = (period : Int) * (q + 2) := by
+      rw [Int.mul_add]; omega
+    rw [this]; exact Int.mul_emod_right _ _
+  · simp only [h5, if_false]
+    refine ⟨by omega, ?_⟩
+    have : ((now : Int) + (((period : Int) - m).toNat : Nat)) - first = (period : Int) * (q + 1) := by
+      rw [Int.mul_add]; omega
+    rw [this]; exact Int.mul_emod_right _ _
+
+-- **but a running repeat event is not kept on that grid**: the periodic wrapper re-schedules itself
+-- `period` after the moment it RAN (`time.time() + t`), not after the moment it was due; `run()` called
+-- 3 s late (the driver loop polls) moves this and every later run by 3 s (finding C18-repeat-drifts):
+-- "every 10 s from 1000" runs at 1003 and is then due at 1013, not 1010
+example : (Plug.prun (Plug.pinit 1000) [.repeat_ ['r'] 10 1 0, .tick 3, .run [.str ['r']]]).map
+      (fun r => r.1.sched.map (·.t)) = some [1013] := by decide
+-- … until the next reload or restart, which puts it back on the grid (1010)
+example : (Plug.prun (Plug.pinit 1000) [.repeat_ ['r'] 10 1 0, .tick 3, .run [.str ['r']], .tick 1, .reload]).map
+      (fun r => r.1.sched.map (·.t)) = some [1010] := by decide
+
 end C18
